@@ -211,6 +211,14 @@ def handlers(emit, repo):
             except Exception as exc:
                 results = None
                 out = {"crashed": True, "etype": type(exc).__name__, "entries": []}
+            # the reader again, after the batch run (run_games adds a key to the dicts it was given)
+            try:
+                read2 = cr.read_dict_from_file(rel)
+                rb["keys2"] = [str(k) for k in read2.keys()]
+                rb["digests2"] = [dg(read2[k]) for k in read2.keys()]
+            except Exception as exc:
+                rb["keys2"] = ["<" + type(exc).__name__ + ">"]
+                rb["digests2"] = []
             # the report
             report = {"error": "", "files": [], "blocks": []}
             cli = {"rc": 0, "files": [], "diff": []}
@@ -407,13 +415,31 @@ def handlers(emit, repo):
                             "--seed", str(p["seed"]), "--width", str(p["width"]), "--length", str(p["length"]),
                             "--max_reward", str(p["maxr"]), "-p", repr(pval(p["rb"])), "-q", repr(pval(p["lb"])),
                             "-r", repr(pval(p["tb"])), "-t", repr(pval(p["lt"]))] + (["--force_down"] if p["fd"] else [])
-                    pr = subprocess.run(args, cwd=scratch, stdout=subprocess.DEVNULL, stderr=subprocess.PIPE,
-                                        timeout=200, env=dict(os.environ, PYTHONDONTWRITEBYTECODE="1"))
-                    after = listing(scratch)
+                    class _R:
+                        returncode = 0
                     etype = ""
-                    if pr.returncode != 0:
-                        lines = [x for x in pr.stderr.decode(errors="replace").strip().split("\n") if x.strip()]
-                        etype = lines[-1].split(":")[0].strip()[:60] if lines else "unknown"
+                    if op.get("inproc"):
+                        # the same entry point called from a long-lived process (a sweep driver)
+                        pr = _R()
+                        old_argv = sys.argv
+                        try:
+                            sys.argv = args[1:]
+                            rg.main()
+                        except SystemExit as exc:
+                            pr.returncode = exc.code if isinstance(exc.code, int) else 1
+                            etype = "SystemExit"
+                        except Exception as exc:
+                            pr.returncode = 1
+                            etype = type(exc).__name__
+                        finally:
+                            sys.argv = old_argv
+                    else:
+                        pr = subprocess.run(args, cwd=scratch, stdout=subprocess.DEVNULL, stderr=subprocess.PIPE,
+                                            timeout=200, env=dict(os.environ, PYTHONDONTWRITEBYTECODE="1"))
+                        if pr.returncode != 0:
+                            lines = [x for x in pr.stderr.decode(errors="replace").strip().split("\n") if x.strip()]
+                            etype = lines[-1].split(":")[0].strip()[:60] if lines else "unknown"
+                    after = listing(scratch)
                     new = sorted(set(after) - set(before))
                     if op.get("again"):
                         new = after          # the file of the first run must still be the only one
